@@ -6,6 +6,7 @@ package vc
 
 import (
 	"bufio"
+	"go/types"
 	"fmt"
 	"os"
 	"path/filepath"
@@ -337,7 +338,7 @@ func isStdQualified(name string) bool {
 	return false
 }
 
-var specFuncRe = regexp.MustCompile(`^([A-Za-z_][A-Za-z0-9_#]*)\s*\(([^)]*)\)\s*([A-Za-z\[\]]*)\s*(=\s*(.*))?$`)
+var specFuncRe = regexp.MustCompile(`^([A-Za-z_][A-Za-z0-9_#]*)\s*\(([^)]*)\)\s*([A-Za-z0-9_\[\]\*\./]*)\s*(=\s*(.*))?$`)
 
 func parseSpecFunc(r string, macro bool) (*SpecFunc, error) {
 	m := specFuncRe.FindStringSubmatch(r)
@@ -389,8 +390,34 @@ func (s *Specs) LoadDir(dir string) error {
 	return nil
 }
 
+// SpecGoType gives spec-level slice sorts a Go type so that indexing knows the element sort.
+func SpecGoType(t string) types.Type {
+	if !strings.HasPrefix(t, "[]") || t == "[]byte" {
+		return nil
+	}
+	switch t[2:] {
+	case "string":
+		return types.NewSlice(types.Typ[types.String])
+	case "int", "int64":
+		return types.NewSlice(types.Typ[types.Int64])
+	case "bool":
+		return types.NewSlice(types.Typ[types.Bool])
+	case "bytes":
+		return types.NewSlice(types.NewSlice(types.Typ[types.Byte]))
+	case "ref":
+		return types.NewSlice(types.Typ[types.UnsafePointer])
+	}
+	return nil
+}
+
 // SpecSort maps a sort name of the contract language to an SMT sort.
 func SpecSort(t string) string {
+	if strings.HasPrefix(t, "[]") {
+		if t == "[]byte" {
+			return "Bytes"
+		}
+		return "Slice"
+	}
 	switch t {
 	case "int", "ref", "int64", "uint64", "int32", "uint32", "map", "ptr":
 		return "Int"
